@@ -462,6 +462,85 @@ class Func:
     def elem(self, ref):
         return self.blocks[ref[0]].elems[ref[1]]
 
+    def single_defs(self):
+        """{local variable term: norm of the one expression it is ever given} for locals with exactly one write (an initialiser or
+        one `=`), whose address is not taken, given a side-effect-free expression built only from constants, parameters that are
+        never written, and other such locals.  Such a local is a name for its expression everywhere after the definition, so a rule
+        may read through it (`p = (rc - 1) / 2; swap(rc, p)` is `swap(rc, (rc - 1) / 2)`)."""
+        if getattr(self, "_single_defs", None) is not None:
+            return self._single_defs
+        pids = set(p["id"] for p in self.params)
+        writes = {}
+        taken = set()
+        defs = {}
+        for e in self.all_elems():
+            if e.cls == "DeclStmt":
+                for d in e.decls or []:
+                    if isinstance(d, dict) and d.get("kind") == "local" and not d.get("static"):
+                        v = ("v", d["name"], d["id"])
+                        writes.setdefault(v, 0)
+                        if d.get("init"):
+                            writes[v] += 1
+                            try:
+                                defs[v] = norm(self.elem(d["init"]))
+                            except (KeyError, IndexError, TypeError):
+                                writes[v] += 1
+            elif e.is_assign or e.is_incdec:
+                t = norm(e.kid(0))
+                if t[0] == "v":
+                    writes[t] = writes.get(t, 0) + 1
+                    if e.is_assign and e.op == "=" and len(t) > 2:
+                        defs[t] = norm(e.kid(1))
+                    else:
+                        writes[t] += 1
+            elif e.cls == "UnaryOperator" and e.op == "&":
+                t = norm(e.kid(0))
+                if t[0] == "v":
+                    taken.add(t)
+        stable = set()
+
+        def ok_term(t, depth=0):
+            if depth > 6:
+                return False
+            for x in subterms(t):
+                if isinstance(x, tuple) and x and x[0] == "v" and len(x) > 2:
+                    if x[2] in pids:
+                        if writes.get(x, 0) or x in taken:
+                            return False
+                    elif x in out:
+                        continue
+                    else:
+                        return False
+                elif isinstance(x, tuple) and x and x[0] in ("*", ".", "[]"):
+                    return False          # memory: may change between the definition and the use
+            return _pure(t)
+        out = {}
+        changed = True
+        while changed:
+            changed = False
+            for v, rhs in defs.items():
+                if v in out or v[2] in pids or writes.get(v, 0) != 1 or v in taken:
+                    continue
+                if ok_term(rhs):
+                    out[v] = rhs
+                    changed = True
+        self._single_defs = out
+        return out
+
+    def expand(self, t):
+        """norm term `t` with single-definition locals replaced by their expressions (see single_defs)."""
+        d = self.single_defs()
+        if not d:
+            return t
+
+        def go(x, depth=0):
+            if isinstance(x, tuple):
+                if x in d and depth < 8:
+                    return go(d[x], depth + 1)
+                return tuple(go(k, depth) for k in x)
+            return x
+        return go(t)
+
     def _thread_shortcircuits(self):
         """clang gives the condition of a do-while (unlike if / while / for) a block of its own in which the values of a
         chain of && / || are merged before the loop branches on the merged value; a path-insensitive walk then sees the edge
